@@ -22,7 +22,40 @@ from props import inject
 from props.inject import Cfg
 from props.frame_common import F, frame_patches, geom_syms, make_frame, sym_data, uf1, uf2
 
-REPLAYS = {'add_signal': inject.replay_add_signal, 'superpose': None}
+def replay_superpose(p):
+    """two different signals injected in both orders on the same prior content (real code, real NumPy)"""
+    import setigen as stg
+    rng = np.random.default_rng(4)
+    msgs = []
+    for asc in (False, True):
+        for smear in (False, True):
+            for bound in (False, True):
+                D = rng.normal(10, 1, (3, 16))
+                mk = lambda: stg.Frame(fchans=16, tchans=3, df=2.0, dt=4.0, fch1=4096.0, ascending=asc, seed=1)
+                fa, fb, f1, f2 = mk(), mk(), mk(), mk()
+                for f in (fa, fb):
+                    f.data = D.copy()
+                fmin = fa.fmin
+                kw1 = dict(path=stg.constant_path(fmin + 9.0, 0.3), t_profile=stg.sine_t_profile(20.0, amplitude=0.2), f_profile=stg.gaussian_f_profile(5.0),
+                           bp_profile=lambda f: 1.0 + 1e-3 * (f - fmin), doppler_smearing=smear, smearing_subsamples=2)
+                kw2 = dict(path=stg.squared_path(fmin + 20.0, -0.05), t_profile=stg.constant_t_profile(2.0), f_profile=stg.box_f_profile(4.0), bp_profile=0.5,
+                           integrate_f_profile=True, f_subsamples=2)
+                if bound:
+                    kw1['bounding_f_range'] = (fmin + 3.0, fmin + 17.0)
+                    kw2['bounding_f_range'] = (fmin + 11.0, fmin + 40.0)
+                a1 = fa.add_signal(**kw1)
+                a2 = fa.add_signal(**kw2)
+                b2 = fb.add_signal(**kw2)
+                b1 = fb.add_signal(**kw1)
+                s1, s2 = f1.add_signal(**kw1), f2.add_signal(**kw2)
+                tol = dict(rtol=1e-9, atol=1e-9)
+                if not (np.allclose(fa.data, fb.data, **tol) and np.allclose(fa.data, D + s1 + s2, **tol) and np.allclose(a1, s1, **tol) and np.allclose(a2, s2, **tol)
+                        and np.allclose(b1, s1, **tol) and np.allclose(b2, s2, **tol)):
+                    msgs.append(f"asc={asc} smearing={smear} bounded={bound}: successive injections do not superpose (order / prior content dependence)")
+    return bool(msgs), '; '.join(msgs[:3]) or 'injections superpose in either order'
+
+
+REPLAYS = {'add_signal': inject.replay_add_signal, 'superpose': replay_superpose}
 
 
 def configs(T, Fc, asc, smear, tier, geom):
@@ -190,6 +223,8 @@ def job_superpose(T, Fc, asc, smear, bound, tier):
                for i in range(T) for j in range(Fc)]
         r, m = core.check(pre + A.pc + A.side + [z3.Or(*dis)], timeout_ms=60000)
         recs.append(q(f"C06:superpose:{(T, Fc, asc, smear, bound)}:A{ia}:sum", r))
+        if r == 'sat':
+            recs.append(cex('C06:superpose:sum', 'after two injections the data is not prior + s1 + s2', dict(fn='superpose'), name=f"C06:superpose:{(T, Fc, asc, smear, bound)}:A{ia}:sum"))
         for ib, B in enumerate(lb):
             if B.kind != 'ok':
                 continue
@@ -208,7 +243,7 @@ def job_superpose(T, Fc, asc, smear, bound, tier):
             recs.append(q(f"C06:superpose:{(T, Fc, asc, smear, bound)}:A{ia}xB{ib}:order", r))
             if r == 'sat':
                 recs.append(cex('C06:superpose:order', 'two injections give different data in the two orders',
-                                dict(fn='add_signal', cfg=None), name=f"C06:superpose:{(T, Fc, asc, smear, bound)}:A{ia}xB{ib}:order"))
+                                dict(fn='superpose'), name=f"C06:superpose:{(T, Fc, asc, smear, bound)}:A{ia}xB{ib}:order"))
     recs.append(q(f"C06:superpose:{(T, Fc, asc, smear, bound)}:pairs-identical-by-rewriter", 'unsat', trivial=True, detail=f"{n} leaf pairs reduced to syntactic identity"))
     tw = 'unsat'
     for A in la:
